@@ -3,7 +3,7 @@
    real linker computed; each checker recomputes with the model (or evaluates
    the ECMA-262 specification side) and returns the indices of the cases that
    disagree. *)
-From V Require Import Common.Base C02.Graph C02.Order C02.SpecESM C02.Wrap C02.Resolve C02.DataUrl C02.SpecDataUrl C02.Emit C02.ResolveSpec C02.EvalOrder C02.WrapGraph.
+From V Require Import Common.Base C02.Graph C02.Order C02.SpecESM C02.Wrap C02.Resolve C02.DataUrl C02.SpecDataUrl C02.Emit C02.ResolveSpec C02.EvalOrder C02.WrapGraph C02.Interop.
 
 Fixpoint mism_from {A} (f : A -> bool) (l : list A) (i : nat) : list nat :=
   match l with
@@ -301,3 +301,17 @@ Definition evalorder_ok (c : case * bool * egraph * Z * list (Z * Z) * list (Z *
   trace_eqb (native_trace g (zn entry)) nat_obs && trace_eqb (bundle_trace g (zn entry)) bun_obs
   && wrap_consistent g && (negb cmp || derived_graph_ok lc g).
 Definition check_evalorder := mismatches evalorder_ok.
+
+(* ---- imports from CommonJS files: (importer ESM-typed, import(), target has the __esModule marker,
+   target has an own "default" key, name 0 default / 1 x / 2 y (absent), class observed natively,
+   class observed in the bundle); classes: 0 module.exports, 1 the "default" key's value,
+   2 another key's value, 3 undefined ---- *)
+Definition ival_code (v : ival) : Z :=
+  match v with VModuleExports => 0 | VKey k => if k =? 0 then 1 else 2 | VUndefined => 3 end.
+Definition interop_ok (c : bool * bool * bool * bool * Z * Z * Z) : bool :=
+  let '(typed, dynamic, marker, has_default, name, nat_obs, bun_obs) := c in
+  let m := mkCjs marker (if has_default then [1; 0] else [1]) in
+  let form := if dynamic then IFDynamic else IFStatement (name =? 0) in
+  (ival_code (native_get m name) =? nat_obs) && (ival_code (bundle_get typed form m name) =? bun_obs)
+  && interop_domain typed m name.
+Definition check_interop := mismatches interop_ok.
